@@ -513,8 +513,9 @@ def _check_kpm(case, out, wlist):
     if n_aux > 0:
         opts["auxiliary_vectors"] = R[:, nexp : nexp + n_aux].copy()
         out.labels.append("aux-vectors")
-    if case["max_moments"]:
-        opts["max_moments"] = case["max_moments"]
+    # always bound the expansion: with the library default (1e6 moments) a KPM that has stopped converging - e.g. in a
+    # mutated copy - would keep the check busy for hours before it emits its convergence warning
+    opts["max_moments"] = case["max_moments"] or 40000
     h0 = sparse.csr_array(H0) if case["sparse_h0"] else H0
     b = case["block"]
     s = case["sizes"][b]
